@@ -115,7 +115,7 @@ NATIVES = {
 # locals between the two calls), and natives that read their sources through getters / iterators / ToPrimitive
 PAIRS = {
     "stringify-toJSON-then-replacer": "JSON.stringify({id:7,total:{toJSON:function(){ return A(1); }},items:[{toJSON:function(){ return A(2); }},{toJSON:function(){ return mk(); }}]},function(k,v){ var t=A(0); return v; })",
-    "stringify-toJSON-replacer-wraps": "JSON.stringify([{toJSON:function(){ return A(1); }},{toJSON:function(){ return A(2); }}],function(k,v){ return (v&&v.w&&k!=='wrapped') ? {wrapped:v,extra:A(9)} : v; })",
+    "stringify-toJSON-replacer-wraps": "JSON.stringify([{toJSON:function(){ return A(1); }},{toJSON:function(){ return A(2); }}],function(k,v){ return (v&&v.w&&(k==='0'||k==='1')) ? {wrapped:v.s,extra:A(9).s} : v; })",
     "stringify-getter-then-toJSON": "JSON.stringify({get a(){ return {toJSON:function(){ return A(1); }}; }, get b(){ return A(2); }},function(k,v){ A(0); return v; })",
     "stringify-allowlist-getters": "JSON.stringify({get w(){ return A(1); }, get s(){ return A(2).s; }, x:3},['w','s','a'])",
     "stringify-nested-toJSON-indent": "JSON.stringify({a:{toJSON:function(){ return {b:{toJSON:function(){ return A(1); }},c:[A(2)]}; }}},null,1)",
@@ -225,7 +225,8 @@ def programs(tier):
         out.append({"id": "native-in-loop|" + name, "src": PRE + "var acc=[]; for (var q=0;q<2;q++) { var t=[q,A(q)]; acc.push(" + expr + ", t); } J(acc)"})
     for name, expr in PAIRS.items():
         out.append({"id": "pair|" + name, "src": PRE + expr})
-        out.append({"id": "pair-in-loop|" + name, "src": PRE + "var acc=[]; for (var q=0;q<2;q++) { var t=[q,A(q)]; acc.push(" + expr + ", t); } J(acc)"})
+        if tier != "quick":
+            out.append({"id": "pair-in-loop|" + name, "src": PRE + "var acc=[]; for (var q=0;q<2;q++) { var t=[q,A(q)]; acc.push(" + expr + ", t); } J(acc)"})
     for name, body in ASYNC.items():
         out.append({"id": "async|" + name, "src": PRE + "async function H(){ %s }\nJ(await H())" % body})
     fams = ["class", "pattern", "gen", "scope", "flow2"]
